@@ -3,7 +3,7 @@
 P=$1; shift
 git -C /repo apply $P || { echo "cannot apply $P"; exit 2; }
 for c in "$@"; do
-	OUT=$(/verif/check $c quick 2>&1); RC=$?
+	OUT=$(VERIF_EVID=/verif/build/evidence-mutant /verif/check $c quick 2>&1); RC=$?
 	echo "== $c exit=$RC  $(echo "$OUT" | grep -c '^VIOLATION') violation line(s)"
 	echo "$OUT" | grep -A2 '^VIOLATION' | head -12
 	echo "$OUT" | grep -E '^(INFRA|BUILD-FAILURE)' | head -3
